@@ -309,6 +309,31 @@ def where(node):
     return node.where
 
 
+def owners_of(fb, fn, depth=0):
+    """the functions a call site inside `fn` is attributed to: fn itself, or - when fn is an extracted helper hidden from the
+    rules (core.mark_unknown_helpers) - the functions that call it"""
+    if not getattr(fn, "unknown_helper", False) or depth > 4:
+        return [fn]
+    out = []
+    for g in fn.tu.fns.values():
+        if any(e.get("cid") == fn.id for _, e in g.all_events()):
+            out.extend(owners_of(fb, g, depth + 1))
+    return out or [fn]
+
+
+def callers(fb, callee_re):
+    """[(function, call event)] for every call of a function matching callee_re; call sites inside extracted helpers are
+    attributed to the helpers' callers"""
+    rx = re.compile(callee_re)
+    out = []
+    for fn in fb.find(pred=lambda f: f.has_cfg(), hidden=True):
+        for bid, ev in fn.all_events():
+            if ev["e"] in ("call", "ctor") and rx.search(ev.get("callee", "") or ""):
+                for o in owners_of(fb, fn):
+                    out.append((o, ev))
+    return out
+
+
 def relinked_on_retry(ig, live, cas_node, links):
     """Treiber-style push: the stores in `links` (node->next = <expected head>) must precede the CAS on every path
     from entry and again on every path from the CAS's own failure edge back to it - a failed CAS refreshes the
@@ -342,7 +367,7 @@ def queue_sites(fb, owner_re):
     record matching owner_re; returns list of dicts(fn, ev, side, blocking, flags, field)"""
     orx = re.compile(owner_re)
     out = []
-    for fn in fb.find(pred=lambda f: f.has_cfg()):
+    for fn in fb.find(pred=lambda f: f.has_cfg(), hidden=True):
         for bid, ev in fn.all_events():
             if ev["e"] != "call":
                 continue
